@@ -115,4 +115,17 @@ PROPS = {
         "level_text": "Exploration by generated histories. failure-with-error iff the probe failed, success otherwise together with the entitlements, published list = server content after a successful sync, child entries at the parent, entries of removed parents/children/CAs gone, identical views across restart. Sampling, not proof.",
         "level_note": "Trusted base: the probe calls (ca_sync_parent, cas_repo_sync_single) are krill's own synchronisation entry points; their Ok/Err is taken as the outcome of the exchange.",
     },
+    "C17": {
+        "level": "exploration",
+        "cases": {"quick": 200000, "thorough": 4000000},
+        "rule": "cases = generated (announcement set, ROA configuration set, held resources, optional scope) tuples over a deliberately tiny address universe (two IPv4 /8s and two IPv6 /32s, "
+        "lengths 0, 8-32 and 0, 32-128) so that nesting, equality and adjacency are dense; origins from six ASNs, ROAs additionally AS0, max length none / equal / +1 / family maximum, peers above and "
+        "below the loader's threshold; distinct by hash of the case JSON; non-trivial iff some in-scope announcement is covered by ROAs of at least two different origins, or an announcement and a ROA have the same prefix",
+        "floors": {"__nontrivial__": 0.40, "equal_prefix_pair": 0.10, "slash_zero": 0.05, "family_max_length": 0.30, "limited_scope": 0.20, "verdict:Valid": 0.20, "verdict:InvalidLength": 0.10, "verdict:Disallowed": 0.02},
+        "assumptions": ["announcement data is loaded through krill's own RISwhois parser from generated text (hook H2)", "the too-permissive / redundant / unseen labels are krill policy and not compared; only verdicts, per-ROA authorised/disallowed sets, not-held and 'suggestions keep validating ROAs'"],
+        "technique": "property-based differential testing of a pure function against a brute-force RFC 6811 validator, plus a metamorphic relation (the order of the configured ROAs is irrelevant)",
+        "level_text": "Exploration by generated inputs with a brute-force reference validator as oracle; tens of thousands of cases per quick run (microseconds each). Sampling of a dense small universe, not proof.",
+        "level_note": "Trusted base: the 20-line brute-force validator in harness/src/props/c17.rs and rpki ResourceSet containment.",
+        "max_workers": 16,
+    },
 }
